@@ -1179,12 +1179,26 @@ class SA(numpy.ndarray):
             out[i] = Sym.lift(numpy.ndarray.__getitem__(self, i)).real
         return out.view(SA)
 
+    @real.setter
+    def real(self, value):
+        v = numpy.broadcast_to(numpy.asarray(value, dtype=object), self.shape)
+        for i in numpy.ndindex(*self.shape):
+            old = Sym.lift(numpy.ndarray.__getitem__(self, i))
+            numpy.ndarray.__setitem__(self, i, Sym(Sym.lift(v[i]).re, old.im))
+
     @property
     def imag(self):
         out = numpy.empty(self.shape, dtype=object)
         for i in numpy.ndindex(*self.shape):
             out[i] = Sym.lift(numpy.ndarray.__getitem__(self, i)).imag
         return out.view(SA)
+
+    @imag.setter
+    def imag(self, value):
+        v = numpy.broadcast_to(numpy.asarray(value, dtype=object), self.shape)
+        for i in numpy.ndindex(*self.shape):
+            old = Sym.lift(numpy.ndarray.__getitem__(self, i))
+            numpy.ndarray.__setitem__(self, i, Sym(old.re, Sym.lift(v[i]).re))
 
 
 def _dt(d):
